@@ -3,8 +3,10 @@
   Property theorems only; helper lemmas live in HL/Lemmas/Refs.lean.
 
   Model: HL/Model/Refs.lean (references.go, rename.go, definition.go as repaired by
-  repo_patches/fix-references-rename.diff and fix-utf16-positions.diff).  Spec:
-  HL/Spec/Occurrences.lean.
+  repo_patches/fix-references-rename.diff and fix-utf16-positions.diff; which resolved journal a
+  request reads as repaired by fix-orphan-journal-own-tree.diff) and HL/Model/WsDocs.lean (how
+  didOpen / didChange / didSave / didClose drive the workspace, as repaired by
+  fix-didopen-workspace.diff and fix-didclose-workspace.diff).  Spec: HL/Spec/Occurrences.lean.
 
   Positions.  The trees' columns count runes; the server converts them to UTF-16 characters with
   the lines of each file's text (`textsOf ws`: what `fileMappers` hands out) and the cursor of a
@@ -13,6 +15,7 @@
   longer a reason for a tree to be unfaithful (`pinned_utf16_columns_counterexample`).
 -/
 import HL.Lemmas.Refs
+import HL.Lemmas.WsDocs
 namespace HL.Props.C09
 open HL HL.Ast HL.Refs HL.Spec.Occ HL.Lemmas.Refs
 
@@ -138,6 +141,151 @@ theorem prepareRename_exact (ws : Workspace) (hf : ws.faithful) (cur : FileT) (h
   cases h1 : findDefinitionTarget cur.lns cur.tree pos <;> cases h2 : spanAt cur.spans pos <;>
     rw [h1, h2] at ht <;> simp at ht ⊢
   exact ht.2.2
+
+/-! ### Which resolved journal a request reads (`resolvedWithPrimaryPath`) -/
+
+/-- From the root journal or a member file the request reads the workspace's journal, labelled
+    with the root's path; from any other journal, and without a workspace, the journal resolved
+    for the document itself, labelled with the document's path. -/
+theorem resolved_choice (r : Resolved) (root : Path) (own : Option Resolved) (path : Path) :
+    (wsContains r root path = true →
+      resolvedWithPrimaryPath (some (r, root)) own path = (some r, root)) ∧
+    (wsContains r root path = false →
+      resolvedWithPrimaryPath (some (r, root)) own path = (own, path)) ∧
+    resolvedWithPrimaryPath none own path = (own, path) := by
+  refine ⟨fun h => ?_, fun h => ?_, rfl⟩ <;> simp [resolvedWithPrimaryPath, h]
+
+theorem wsContains_member (ws : Workspace) (order : List Path) (cur : FileT) (hcur : cur ∈ ws.files)
+    (hp : cur.path ≠ "") : wsContains (resolvedOf ws order) ws.root.path cur.path = true := by
+  simp only [wsContains, Bool.and_eq_true, bne_iff_ne, ne_eq, Bool.or_eq_true, beq_iff_eq,
+    List.any_eq_true, resolvedOf, List.mem_map]
+  refine ⟨hp, ?_⟩
+  simp only [Workspace.files, List.mem_cons] at hcur
+  rcases hcur with h | h
+  · exact Or.inl (by rw [h])
+  · exact Or.inr ⟨(cur.path, cur.tree), ⟨cur, h, rfl⟩, rfl⟩
+
+/-- A request as the SERVER builds it for the document `cur`: the workspace's journal and the
+    journal stored for the document's URI go through `resolvedWithPrimaryPath`, which also picks
+    the texts the positions are converted with: `wsTexts` (`openFileMappers`) with the
+    workspace's journal, `ownTexts` (the document's buffer, the included files as on disk) with
+    the document's own. -/
+def serverRequest (wsView : Option (Resolved × Path)) (wsTexts : Texts) (own : Option Resolved)
+    (ownTexts : Texts) (cur : FileT) (pos : LPos) : Request :=
+  let c := resolvedWithPrimaryPath wsView own cur.path
+  let usedWs := match wsView with
+    | some (r, root) => wsContains r root cur.path
+    | none => false
+  ⟨cur.tree, c.1, c.2, pos, cur.lns, if usedWs then wsTexts else ownTexts⟩
+
+/-- **references_exact_member.**  With a workspace, from the root journal or any member file:
+    every occurrence in the workspace (whatever is stored for the document's own URI). -/
+theorem references_exact_member (ws : Workspace) (hwf : ws.WF) (hf : ws.faithful) (cur : FileT)
+    (hcur : cur ∈ ws.files) (hp : cur.path ≠ "") (hsep : separated cur.spans)
+    (hnames : ∀ s ∈ cur.spans, s.name ≠ []) (order : List Path) (own : Option Resolved)
+    (ownTexts : Texts) (pos : LPos) (hpos : cursorOK cur.lns pos) (incl : Bool) (l : Loc) :
+    l ∈ references (serverRequest (some (resolvedOf ws order, ws.root.path)) (textsOf ws) own ownTexts cur pos) incl ↔
+      l ∈ expected ws cur pos incl := by
+  have hm := wsContains_member ws order cur hcur hp
+  have hc := (resolved_choice (resolvedOf ws order) ws.root.path own cur.path).1 hm
+  simp only [serverRequest, hc, hm, if_true]
+  exact references_exact ws hwf hf cur hcur hsep hnames order pos hpos incl l
+
+/-- **references_exact_own_tree.**  From a journal `cur` outside the workspace root's include
+    tree (and without a workspace): every occurrence in `cur` and its OWN include tree `wsOwn`
+    (root `cur`), once that tree has been resolved for the document — the current file is no
+    longer left out. -/
+theorem references_exact_own_tree (wsView : Option (Resolved × Path)) (wsTexts : Texts) (wsOwn : Workspace)
+    (hout : ∀ r root, wsView = some (r, root) → wsContains r root wsOwn.root.path = false)
+    (hwf : wsOwn.WF) (hf : wsOwn.faithful) (hsep : separated wsOwn.root.spans)
+    (hnames : ∀ s ∈ wsOwn.root.spans, s.name ≠ []) (order : List Path) (pos : LPos)
+    (hpos : cursorOK wsOwn.root.lns pos) (incl : Bool) (l : Loc) :
+    l ∈ references (serverRequest wsView wsTexts (some (resolvedOf wsOwn order)) (textsOf wsOwn) wsOwn.root pos) incl ↔
+      l ∈ expected wsOwn wsOwn.root pos incl := by
+  have hreq : serverRequest wsView wsTexts (some (resolvedOf wsOwn order)) (textsOf wsOwn) wsOwn.root pos =
+      requestFrom wsOwn wsOwn.root order pos := by
+    cases wsView with
+    | none => rfl
+    | some v =>
+      obtain ⟨r, root⟩ := v
+      have h := hout r root rfl
+      simp [serverRequest, requestFrom, resolvedWithPrimaryPath, h]
+  rw [hreq]
+  exact references_exact wsOwn hwf hf wsOwn.root (by simp [Workspace.files]) hsep hnames order pos hpos incl l
+
+/-! ### The workspace follows the buffers (`didopen-stale-workspace`, `didclose-stale-workspace`, repaired) -/
+
+open HL.Workspace HL.WsDocs HL.Lemmas.WsDocs HL.Lemmas.Update in
+/-- **workspace_follows_buffers.**  A directory `fs` (at most `MaxIncludeDepth` files),
+    `Initialize`, then ANY history of didOpen / didChange / didSave / didClose notifications on
+    files of the client's view that keep their include lists (`calm`; opening a file with a text
+    that differs from the file on disk and closing one with unsaved edits included): the
+    workspace satisfies its invariant with respect to what
+    the CLIENT sees (`view`: the buffer of every open document, the file on disk otherwise).
+    Hence the member files are those reachable in the client's view, and for every member file
+    the tree the resolved journal holds — the one references, rename and hover read — is that
+    of the client's current text. -/
+theorem workspace_follows_buffers (cfg : Cfg) (fs : FS) (es : List Ev)
+    (hok : HL.Spec.Rebuild.fsOk fs = true) (hne : fs ≠ []) (hclean : HL.Lemmas.Init.graphsClean cfg fs)
+    (hlim : fs.length ≤ cfg.limit) (hcalm : calm cfg (dstart cfg fs) es) :
+    let s := drun {} cfg fs es
+    (∀ p c, s.bufs.get p = some c → s.view.get p = some c) ∧
+    (∀ p, s.bufs.get p = none → s.view.get p = s.disk.get p) ∧
+    (∀ p, (s.w.idx.files.get p).isSome ↔
+      (HL.Spec.Rebuild.Reach s.view s.w.root p ∧ (s.view.get p).isSome)) ∧
+    (∀ p, (s.w.idx.files.get p).isSome = true → held s.w p = s.view.get p) := by
+  intro s
+  have hinv : DInv cfg (HL.Lemmas.Init.rootSel fs) s :=
+    inv_run cfg _ es _ (inv_start cfg fs hok hne hclean hlim) hcalm
+  exact ⟨hinv.opened, hinv.others, hinv.winv.closed, fun p hm => held_eq cfg s.view s.w hinv.winv p hm⟩
+
+namespace ExW
+open HL.Index HL.Workspace HL.WsDocs
+
+def shop (n : Nat) : Contrib := { pc := [("Shop", n)] }
+/-- main includes b. -/
+def fsW : FS := [("main.journal", { incs := ["b.journal"] }), ("b.journal", shop 1)]
+/-- b is opened with a text that differs from the file on disk. -/
+def esW : List Ev := [.openDoc "b.journal" (shop 2)]
+
+end ExW
+
+open HL.Workspace HL.WsDocs ExW in
+/-- **pinned_didopen_stale_workspace_counterexample** (server.go before
+    fix-didopen-workspace.diff, `fixOpen := false`): `DidOpen` stored the document without
+    telling the workspace; b.journal, opened with a text that differs from the file on disk, is
+    held in its disk version, while the client sees the buffer.  The repaired server holds the
+    buffer. -/
+theorem pinned_didopen_stale_workspace_counterexample :
+    (drun { openDoc := false } {} fsW esW).view.get "b.journal" = some (shop 2) ∧
+    held (drun { openDoc := false } {} fsW esW).w "b.journal" = some (shop 1) ∧
+    held (drun {} {} fsW esW).w "b.journal" = some (shop 2) := by
+  decide
+
+open HL.Workspace HL.WsDocs ExW in
+/-- **pinned_didclose_stale_workspace_counterexample** (server.go before
+    fix-didclose-workspace.diff, `close := false`): b.journal is opened, changed without saving
+    and closed; the client sees the file on disk again, the pinned workspace kept the discarded
+    buffer.  The repaired server re-reads the file. -/
+theorem pinned_didclose_stale_workspace_counterexample :
+    let es : List Ev := [.openDoc "b.journal" (shop 1), .change "b.journal" (shop 2), .close "b.journal"]
+    (drun { close := false } {} fsW es).view.get "b.journal" = some (shop 1) ∧
+    (drun { close := false } {} fsW es).bufs.get "b.journal" = none ∧
+    held (drun { close := false } {} fsW es).w "b.journal" = some (shop 2) ∧
+    held (drun {} {} fsW es).w "b.journal" = some (shop 1) := by
+  decide
+
+open HL.Workspace HL.WsDocs HL.Lemmas.WsDocs ExW in
+/-- the hypotheses of `workspace_follows_buffers` hold on that history (non-vacuity on the
+    shape that used to fail), also when it goes on with a change and a save. -/
+example : calm {} (dstart {} fsW)
+      (esW ++ [.change "b.journal" (shop 3), .save "b.journal", .change "b.journal" (shop 4), .close "b.journal"]) ∧
+    HL.Spec.Rebuild.fsOk fsW = true ∧ HL.Lemmas.Init.graphsClean {} fsW := by
+  refine ⟨⟨⟨by decide, by decide, shop 1, by decide, by decide⟩,
+    ⟨by decide, by decide, shop 2, by decide, by decide⟩, trivial,
+    ⟨by decide, by decide, shop 3, by decide, by decide⟩,
+    ⟨by decide, shop 3, shop 4, by decide, by decide, by decide, by decide⟩, trivial⟩, by decide, ?_⟩
+  unfold HL.Lemmas.Init.graphsClean; decide
 
 /-! ### Rename -/
 
@@ -399,15 +547,18 @@ theorem text_commodity_trailing_blank_counterexample :
          l ∉ occurrences [(fileText.path, fileText.spans)] .commodity usdL true :=
   ⟨by decide, ⟨"a.journal", ⟨⟨1, 9⟩, ⟨1, 14⟩⟩⟩, by decide, by decide⟩
 
-/-! #### Known findings about the snapshot the server holds
+/-! #### Findings about the snapshot the server holds
 
 The workspace `⟨fileA, [fileB']⟩` is what the client sees: b.journal is open with an unsaved
-edit.  Without a workspace root the resolved journal of a.journal was loaded from disk
-(`unsaved-include-not-seen`); with a workspace root the same happens when b.journal was opened
-with a text that differs from disk and not changed since (`didopen-stale-workspace`): in both
-cases the server holds `fileB`'s tree.  After a second load with a warm cache the loader keeps
-only the directly included file and drops its subtree (`loader-cache-drops-subtree`): the member
-is missing altogether. -/
+edit.  When the request is answered from the journal resolved for a.journal itself (no
+workspace root, or a.journal outside the root's tree) that journal was loaded from disk:
+`unsaved-include-not-seen`, OPEN.  With a workspace root the same happened when b.journal was
+opened with a text that differs from disk and not changed since (`didopen-stale-workspace`,
+repaired: `workspace_follows_buffers`; the pinned behaviour is
+`pinned_didopen_stale_workspace_counterexample` on the server model, and below on the
+references it produced): in both cases the server holds `fileB`'s tree.  After a second load
+with a warm cache the pinned loader kept only the directly included file and dropped its
+subtree (`loader-cache-drops-subtree`, repaired): the member was missing altogether. -/
 
 def wsEdited : Workspace := ⟨fileA, [fileB']⟩
 
@@ -417,7 +568,7 @@ theorem unsaved_include_not_seen_counterexample :
          l ∉ occurrences wsEdited.spanFiles .commodity usd true :=
   ⟨by decide, ⟨"b.journal", ⟨⟨1, 9⟩, ⟨1, 12⟩⟩⟩, by decide, by decide⟩
 
-theorem didopen_stale_workspace_counterexample :
+theorem pinned_didopen_stale_snapshot_counterexample :
     coherentB wsEdited (resolvedOf ws2 ["b.journal"]) = false ∧
     ∃ l, l ∈ occurrences wsEdited.spanFiles .commodity eur true ∧
          l ∉ findReferences noTexts .commodity eur (some (resolvedOf ws2 ["b.journal"])) "a.journal" none true :=
@@ -428,6 +579,23 @@ theorem loader_cache_drops_subtree_counterexample :
     ∃ l, l ∈ occurrences ws2.spanFiles .account ab true ∧
          l ∉ findReferences noTexts .account ab (some (single fileA)) "a.journal" none true :=
   ⟨by decide, ⟨"b.journal", ⟨⟨1, 2⟩, ⟨1, 5⟩⟩⟩, by decide, by decide⟩
+
+/-- Before fix-orphan-journal-own-tree.diff a request from a journal outside the root's tree
+    (`o.journal`; the workspace is the single file a.journal) read the workspace's journal:
+    none of its own occurrences were reported.  The repaired choice reads the journal resolved
+    for the document itself. -/
+theorem pinned_orphan_reads_workspace_counterexample :
+    let orphan : FileT := { fileB with path := "o.journal" }
+    let wsv : Option (Resolved × Path) := some (single fileD, "a.journal")
+    let own := some (single orphan)
+    wsContains (single fileD) "a.journal" "o.journal" = false ∧
+    (∃ l, l ∈ occurrences [(orphan.path, orphan.spans)] .commodity eur true ∧
+      l ∉ findReferences noTexts .commodity eur (pinnedResolvedWithPrimaryPath wsv own orphan.path).1
+            (pinnedResolvedWithPrimaryPath wsv own orphan.path).2 (some orphan.tree) true) ∧
+    findReferences noTexts .commodity eur (resolvedWithPrimaryPath wsv own orphan.path).1
+      (resolvedWithPrimaryPath wsv own orphan.path).2 (some orphan.tree) true =
+      [⟨"o.journal", ⟨⟨1, 17⟩, ⟨1, 20⟩⟩⟩] :=
+  ⟨by decide, ⟨⟨"o.journal", ⟨⟨1, 17⟩, ⟨1, 20⟩⟩⟩, by decide, by decide⟩, by decide⟩
 
 /-- Non-vacuity: a two-file workspace with shared symbols satisfies every hypothesis. -/
 example : guardsOff ws2 (resolvedOf ws2 ["b.journal"]) = true := by decide
